@@ -9,7 +9,7 @@ rd, spec = sys.argv[1], json.load(open(sys.argv[2]))
 props = {json.loads(l)['id']: json.loads(l) for l in open(VERIF + '/properties.jsonl')}
 TMPL = '''You are helping to evaluate a verification effort by playing the role of a careless-but-plausible developer.
 
-Working directory: {d}  — this is your own scratch git worktree of the a2o/snoopy repository (a small C library, libsnoopy.so, that is LD_PRELOADed, wraps execv/execve and logs every program execution; plus a CLI `snoopyctl`). It is already configured and built in-tree (./configure was run; `make -j8` rebuilds; `make -k -j8 check` runs the project's test suite, about 175 shell tests; two tests, tests/datasource/datasource_systemd_unit_name.sh and tests/output/output_socket.sh, fail already on the unmodified tree and may be ignored; tests/datasource/datasource_timestamp_us.sh is timing-sensitive and may fail when the machine is busy - re-run it alone if it does). Work ONLY inside {d}. Do not read or touch /verif or /repo. There is no network.
+Working directory: {d}  — this is your own scratch git worktree of the a2o/snoopy repository (a small C library, libsnoopy.so, that is LD_PRELOADed, wraps execv/execve and logs every program execution; plus a CLI `snoopyctl`). It is already configured and built in-tree (./configure was run; `make -j8` rebuilds; `make -k -j8 check` runs the project's test suite, about 175 shell tests; two tests, tests/datasource/datasource_systemd_unit_name.sh and tests/output/output_socket.sh, fail already on the unmodified tree and may be ignored; tests/datasource/datasource_timestamp_us.sh is timing-sensitive and may fail when the machine is busy - re-run it alone if it does). Work ONLY inside {d}. Do not read or touch /verif or /repo. There is no network. Do NOT use `git stash` (the stash is shared with the other worktrees of the same repository): to compare against the unmodified tree use `git diff > seed/patch.diff`, `git apply -R seed/patch.diff` and `git apply seed/patch.diff`.
 
 The property under study ({id}: {title}):
 
